@@ -10,6 +10,7 @@ mod probes;
 mod refmodel;
 mod run;
 mod scenario;
+mod selftest;
 
 use catalogue::Tier;
 use std::collections::BTreeMap;
@@ -233,7 +234,7 @@ fn check_c13(tier: Tier, tier_s: &str) -> i32 {
     cov["states"] = json!(cst as u64 + sw.accepted);
     cov["transitions"] = json!(ctr + sw.calls);
     cov["traces_validated_against_impl"] = json!(ctr + sw.calls);
-    cov["instantiate_sweep"] = json!({"calls": sw.calls, "accepted": sw.accepted, "refused": sw.refused, "aborted": sw.aborted,
+    cov["instantiate_sweep"] = json!({"calls": sw.calls, "accepted": sw.accepted, "refused": sw.refused, "aborted": sw.aborted, "accepted_configurations_driven_through_create_create_match": sw.usable_checked,
         "refusals_by_first_reference_reason": sw.by_reason, "accepted_precision_increment_pairs": sw.accepted_pairs.iter().map(|(p, i)| format!("({p},{i})")).collect::<Vec<_>>(),
         "enumeration": if tier == Tier::Quick { "every (precision 0..20,38..40 x increment) pair x all shapes within 2 field deviations of a valid baseline" } else { "3 field deviations everywhere; full 278784-shape product for precision 0,1,2,17,18,19 at increments 0,1,10^p,10^p+1" }});
     let mut samples = sw.samples.clone();
@@ -369,6 +370,7 @@ fn main() {
             }
             if rep.unlisted.is_empty() { 0 } else { 1 }
         }
+        Some("selftest") => selftest::run(),
         Some("replay") => replay(args.get(2).map(|s| s.as_str()).unwrap_or("")),
         _ => {
             eprintln!("usage: atsmc check <Cxx> [quick|thorough] | replay <file>");
